@@ -96,9 +96,26 @@ def ev_t(e):
     raise ValueError(k)
 
 
+MIDW = {"mid_emit": "MEmit", "mid_finish": "MFinish", "mid_fail": "MFail"}
+
+
+def mids_t(mids):
+    return lst(["%s %s %s" % (MIDW[k], natlit(tid), natlit(n)) for k, tid, n in mids])
+
+
+def ev_chunk(e):
+    """Coq list of events: a poll during which workers acted between the two reads is model.poll2 / fetch2"""
+    if e[0] == "poll" and len(e) > 3 and e[3]:
+        return "poll2 %s %s %s" % (lst([natlit(i) for i in e[1]]), mids_t(e[3]),
+                                   lst(["(%s, %s)" % ({"CONTINUE": "CONT"}.get(d, d), natlit(l)) for d, l in e[2]]))
+    if e[0] == "fetch" and len(e) > 2 and e[2]:
+        return "fetch2 %s %s" % (lst([natlit(i) for i in e[1]]), mids_t(e[2]))
+    return "[" + ev_t(e) + "]"
+
+
 def seq_term(bk, evs, out, polls, err, tuner=False):
-    return "((%s, %s, %s, %s, %s, %s) : seq_case)" % (
-        bk, lst(["\n    " + ev_t(e) for e in evs]),
+    return "((%s, concat %s, %s, %s, %s, %s) : seq_case)" % (
+        bk, lst(["\n    " + ev_chunk(e) for e in evs]),
         lst(["(%s, %s)" % (natlit(i), zlit(v)) for i, v in out]),
         lst(["(%s, %s)" % (lst(["(%s, %s)" % (natlit(i), zlit(v)) for i, v in b]),
                            lst(["(%s, %s)" % (natlit(i), ST[s]) for i, s in sts])) for b, sts in polls]),
@@ -170,7 +187,11 @@ def gen_raw_ops(rng):
                 ids.append(rng.choice(ids))
             if bad:
                 ids.append(tid)
-            ops.append(("fetch", ids))
+            mids = []
+            once = [i for i in ids if ids.count(i) == 1 and i < ntr]   # a trial listed twice is read twice: no single "between"
+            if once and rng.random() < 0.25:
+                mids = [[rng.choice(["mid_emit", "mid_finish", "mid_finish", "mid_fail"]), rng.choice(once), rng.randint(0, 3)]]
+            ops.append(("fetch", ids, mids))
         elif k in ("pause", "stop"):
             if bad and tid >= ntr:
                 continue   # pause/stop of an unknown id: outside what the tuner can do; not generated
@@ -196,8 +217,9 @@ def run_raw_ops(ops):
     """Executes the operations on the real TrialBackend code; returns (polls, error)."""
     from fetch_scripted import FakeProcLocalBackend
     b = FakeProcLocalBackend()
-    polls, err = [], None
+    polls, err, mops = [], None, []
     for op in ops:
+        mops.append(tuple(op))
         try:
             if op[0] == "start":
                 b.queue_run(None, as_dicts(op[1]))
@@ -212,8 +234,9 @@ def run_raw_ops(ops):
             elif op[0] == "fail":
                 b.fail(op[1], op[2])
             elif op[0] == "fetch":
-                st, res = b.fetch_status_results(list(op[1]))
+                st, res = b.fetch_status_results(list(op[1]), mid=[tuple(m) for m in (op[2] if len(op) > 2 else [])])
                 polls.append(([(i, r["v"]) for i, r in res], [(i, st[i][1]) for i in op[1]]))
+                mops[-1] = ("fetch", list(op[1]), [list(m) for m in b.calls[-1][4]])
             elif op[0] == "pause":
                 b.next_late = op[2]
                 b.pause_trial(op[1], None)
@@ -225,11 +248,11 @@ def run_raw_ops(ops):
             err = ("ResumeBadId" if "not present" in msg else
                    "ResumeNotPaused" if "Cannot resume" in msg else "UnknownId")
             break
-        except KeyError:
+        except (KeyError, FileNotFoundError):   # unknown trial id: no process / no trial folder
             err = "UnknownId"
             break
     b.close()
-    return polls, err
+    return polls, err, mops
 
 
 def probe_generic_kind():
@@ -238,7 +261,7 @@ def probe_generic_kind():
     first poll after resume_trial (code before patches/F-C02-1.diff), else 'Generic'."""
     ops = [("start", [(1.0, 0), (2.0, 1)]), ("emit", 0, 1), ("fetch", [0]), ("pause", 0, 1),
            ("resume", 0, [(3.0, 100)]), ("emit", 0, 1), ("fetch", [0])]
-    polls, err = run_raw_ops(ops)
+    polls, err, _ = run_raw_ops(ops)
     last = [v for _, v in polls[-1][0]] if polls and err is None else None
     return "Legacy" if last == [1, 100] else "Generic"
 
@@ -256,7 +279,7 @@ def raw_cases(ctx, replay):
         cases = [gen_raw_ops(rng) for _ in range(ctx.n(1200, 12000))]
     terms, meta = [], []
     for ops in cases:
-        polls, err = run_raw_ops(ops)
+        polls, err, mops = run_raw_ops(ops)
         nres = sum(len(b) for b, _ in polls)
         resumed = any(o[0] == "resume" for o in ops)
         ctx.count(("raw", ops), nontrivial=bool(nres >= 2 and (resumed or any(o[0] in ("pause", "stop") for o in ops))))
@@ -264,7 +287,8 @@ def raw_cases(ctx, replay):
         ctx.h("raw_error", err or "none")
         for o in ops:
             ctx.h("raw_op", o[0])
-        terms.append(seq_term(GENERIC_KIND[0], ops, [], polls, err))
+        ctx.h("raw_fetch_with_worker_between_reads", sum(1 for o in mops if o[0] == "fetch" and len(o) > 2 and o[2]))
+        terms.append(seq_term(GENERIC_KIND[0], mops[:len(mops) if err is None else len(mops)], [], polls, err))
         meta.append(dict(kind="raw", ops=[list(o) for o in ops], impl_polls=polls, impl_error=err))
     if terms:
         ctx.sample(dict(kind="raw TrialBackend operations", ops=meta[0]["ops"][:8], impl_polls=meta[0]["impl_polls"][:4]))
@@ -355,12 +379,13 @@ class Policy:
             for tid, wk in backend.w.items():
                 if wk.proc == "running":
                     x = self.rng.random()
+                    mid = "mid_" if (not self.sim and self.rng.random() < self.p.get("p_mid", 0.15)) else ""
                     if x < 0.6:
-                        w.append(["emit", tid, self.rng.randint(0, 3)])
+                        w.append([mid + "emit", tid, self.rng.randint(0, 3)])
                     elif x < 0.85:
-                        w.append(["finish", tid, 0])
+                        w.append([mid + "finish", tid, 0])
                     elif x < 0.9:
-                        w.append(["fail", tid, self.rng.randint(0, 2)])
+                        w.append([mid + "fail", tid, self.rng.randint(0, 2)])
         self.rec["world"].append(w)
         return [tuple(x) for x in w]
 
@@ -423,14 +448,15 @@ def run_tuner_generic(case):
             reported.setdefault(c[1], []).append([v for _, v in reps])
             timeline.append(("resume", c[1]))
         elif c[0] == "poll":
-            cur_poll = ["poll", list(c[1]), []]
+            cur_poll = ["poll", list(c[1]), [], [list(m) for m in c[4]]]
             evs.append(cur_poll)
             polls.append((list(c[2]), [(i, c[3][i]) for i in c[1]]))
             timeline.append(("poll", dict(c[3])))
     evs = [tuple(e) for e in evs]
     rows = [(r["trial_id"], r["v"]) for r in cb.results]
     return dict(evs=evs, out=out, polls=polls, reported=reported, timeline=timeline, rows=rows, crash=crash,
-                window={k: list(v) for k, v in b.late_emitted.items()}, script=pol.rec)
+                window={k: list(v) for k, v in b.late_emitted.items()}, script=pol.rec,
+                mids=sum(len(e[3]) for e in evs if e[0] == "poll" and len(e) > 3))
 
 
 def run_tuner_sim(case):
@@ -628,6 +654,8 @@ def tuner_cases(ctx, replay, sim):
         ctx.h(kind + "_window_reports", min(sum(len(v) for v in obs["window"].values()), 5))
         if sim:
             ctx.h(kind + "_same_iteration_resume", obs["same_iter_resume"])
+        else:
+            ctx.h(kind + "_worker_acts_between_reads", min(obs.get("mids", 0), 5))
         if obs["crash"]:
             ctx.violation("correspondence", "Tuner.run crashed on a scripted run: " + obs["crash"], case=rcase,
                           failing_input=False, broken="driver c02 whole-run (%s)" % kind)
